@@ -56,6 +56,10 @@ FIXED_PROGRAMS = [
     [[["open", "h", "/d2/n.bin", "w"], ["write", "h", 8, 1300], ["close", "h"]], [["remove", "/d2/X.TXT"]]],
     [[["open", "h", "/e/a.bin", "w"], ["write", "h", 9, 600], ["close", "h"]],
      [["open", "g", "/e/b.bin", "w"], ["write", "g", 10, 600], ["close", "g"]]],
+    # overwrite in place (no allocation, the file does not grow) racing an entry coming / going in the SAME directory:
+    # the handle still rewrites the directory
+    [[["open", "h", "/d1/OLD.BIN", "r+"], ["write", "h", 11, 3], ["close", "h"]], [["create", "/d1/NEWF.TXT"]]],
+    [[["open", "h", "/d1/keep this one.txt", "r+"], ["write", "h", 12, 2], ["close", "h"]], [["remove", "/d1/OLD.BIN"]]],
 ]
 
 
